@@ -105,8 +105,8 @@ def run(c):
                 c.oracle_fail(l, "FillRandom harness answered " + a[:80], l)
                 continue
             o = cc.outputs("ok " + a)
-            if o.get("w1b") == "werr" or o.get("w2") not in ("ok", "n/a") or o.get("wj") != "ok":
-                c.oracle_fail(l, "a writer refuses the randomly filled value: " + " ".join("%s=%s" % (k, o.get(k, "?")[:12]) for k in ("w1b", "w2", "wj")), l)
+            if o.get("w1b") == "werr" or o.get("res") == "werr" or o.get("w2") not in ("ok", "n/a") or o.get("wj") != "ok":
+                c.oracle_fail(l, "a writer refuses the randomly filled value: " + " ".join("%s=%s" % (k, o.get(k, "?")[:12]) for k in ("w1b", "res", "w2", "wj")), l)
             if o.get("again") != "same" or o.get("dirty") != "same":
                 c.oracle_fail(l, "same seed gave a different value (again=%s, into a used object=%s)" % (o.get("again"), o.get("dirty")), l)
     c.extra["known_findings_reproduced"] = sorted(k.split(":")[0] for k in reproduced)
@@ -121,4 +121,4 @@ def run(c):
                   "harness Rand: splitmix64, one word per Rand call; NormFloat64 restricted to multiples of 1/8 in [-125, 125] (exact float bits without float arithmetic)"]
     c.assumptions += ["TL2-origin structs (RandomInt&1 per optional field) are not modelled: no TL1 form to compare; none occurs in the corpus",
                       "RandGenerator SizeHandler/FieldMaskHandler hooks at their defaults (identity)",
-                      "FillRandomResultTL1 of functions is not tied"]
+                      "FillRandomResultTL1 of functions is tied (bytes of the result) but not covered by fill_valid"]
